@@ -36,7 +36,7 @@ PROPS = {
         ],
         "trusted_base": [STDLIB, FSMODEL, BUILDERMODEL],
         "assumptions": ["fault model of the reader: the stream fails (error or clean truncation) at a byte offset; fh.Close() errors inside Unpack cannot be injected through an io.Reader and are outside the property's fault model"],
-        "explanation": "Unpack part: C12_unpack_ok_complete (a run that reports success did everything the fault-free run does, for every fault position), C12_unpack_header_fault_reported, C12_unpack_body_fault_reported, C12_fault_never_illegal / C12_illegal_has_culprit (policy rejections are distinguishable and have a culprit entry). Tie: 'unpack-faults' lane cuts the tar stream at every position (mapped to the model's fault by decoding with archive/tar) and compares full filesystem dumps; gzip-level read errors/truncations are judged by the oracle (success => fully materialised).",
+        "explanation": "Unpack part: C12_unpack_ok_complete (a run that reports success did everything the fault-free run does, for every fault position), C12_unpack_header_fault_reported, C12_unpack_body_fault_reported, C12_fault_never_illegal / C12_illegal_has_culprit (policy rejections are distinguishable and have a culprit entry). Tie: 'unpack-faults' lane cuts the tar stream at every position (mapped to the model's fault by decoding with archive/tar) and compares full filesystem dumps; gzip-level read errors/truncations are judged by the oracle (success => fully materialised). Pack part (Props/C12p over PackIO.lean): C12_pack_write_fault_reported — for every tree, option set and source, a writer failure surfacing at ANY write-side operation (header or body of any entry, tar close, gzip close) makes Pack return an error and no Meta; C12_pack_checks_extracted evaluates the regenerated fact Generated.ioErrChecks (each of tarW.WriteHeader, io.Copy(tarW,..), tarW.Close, gzipW.Close has one call site whose error is tested and returned), so a dropped or deferred check breaks the build; C12_cex_unchecked_gzclose shows which check is essential. Tie: extracted facts + pack-faults lane (writer failing at every byte offset of generated slugs).",
     },
     "C02": {
         "lanes": [
@@ -75,7 +75,7 @@ PROPS = {
         ],
         "trusted_base": [STDLIB, FSMODEL],
         "assumptions": [],
-        "explanation": "C20_meta / C20_meta_sum: for every filesystem, working directory, option set and source — whatever Pack returns — Meta.Files is the list of entry names in order and Meta.Size is the number of content bytes stored for regular entries (invariant of the mutually recursive walk incl. dereferenced files and directories and ignored subtrees); C20_entries_only_grow. Tie: 'pack' lane: returned Meta vs headers and bodies read back from the real slug (names in order, sizes, header sizes), and full model comparison.",
+        "explanation": "C20_meta / C20_meta_sum: for every filesystem, working directory, option set and source — whatever Pack returns — Meta.Files is the list of entry names in order and Meta.Size is the number of content bytes stored for regular entries (invariant of the mutually recursive walk incl. dereferenced files and directories and ignored subtrees); C20_entries_only_grow. Tie: 'pack' lane: returned Meta vs headers and bodies read back from the real slug (names in order, sizes, header sizes), and full model comparison. Props/C20p: C20_meta_only_for_complete_slug / C20_no_meta_on_write_fault — a Meta comes back only when no writer failure surfaced at any write-side operation (PackIO.lean; tie: extracted error-check facts, pack-faults lane).",
     },
     "C06": {
         "lanes": [
